@@ -59,6 +59,84 @@ Theorem C03_zero_never_auto_applications : forall a apps s ys s',
   get_application_job (s_starter s') a = get_application_job (s_starter s) a.
 Proof. exact zero_never_auto_applications. Qed.
 
+(* seq_shape_inv (current commands of a job belong to the group popped last, planned keys are beyond its key, no duplicate key, pending groups are parts of it) is preserved by EVERY step_call satisfying the guard = H_no_reentrant_next (a job pops no group while one of its groups is still being processed) and H_no_add_commands (start_process / stop_process only for an application without job) *)
+Theorem C03_seq_shape_inv_preserved : forall c rest s gh push outs s',
+  seq_shape_inv (c :: rest) s gh -> guard c rest s = true -> step_call c s = Ok ((push, outs), s') ->
+  seq_shape_inv (push ++ rest) s' (ghost_step c s push gh).
+Proof. exact inv_step. Qed.
+
+(* start_request_order (and its Stopper mirror), partial: for every guarded history from the initial state of any configuration, at every request the command belongs to the group popped last for its job, every current command of the job belongs to that group, every key still planned is greater (Starter) / smaller (Stopper), and the keys popped by one job are strictly monotone *)
+Theorem C03_start_request_order_partial : forall fuel cf ops s' gh' log,
+  forallb (fun t => op_ok (fst (fst t))) ops = true ->
+  run_g fuel (init_st cf) [] ops [] = GOk s' gh' log ->
+  seq_shape_inv [] s' gh' /\ Forall entry_ok log.
+Proof. exact seq_shape_from_init. Qed.
+
+(* the same from any state satisfying the invariant *)
+Theorem C03_seq_shape_history : forall fuel ops s gh acc s' gh' log,
+  seq_shape_inv [] s gh -> Forall entry_ok acc -> forallb (fun t => op_ok (fst (fst t))) ops = true ->
+  run_g fuel s gh ops acc = GOk s' gh' log ->
+  seq_shape_inv [] s' gh' /\ Forall entry_ok log.
+Proof. exact seq_shape_history. Qed.
+
+(* application_order, local form (every state): application jobs become current only when no application job is current, and they are those planned under the least (Starter) / greatest (Stopper) application sequence *)
+Theorem C03_application_pop_is_extremal : forall k s push outs s',
+  step_next_pop k s = Ok ((push, outs), s') ->
+  push = [] \/
+  exists seq cur,
+    cm_current (get_cmdr k s) = [] /\
+    aget seq (cm_planned (get_cmdr k s)) = Some cur /\
+    (forall y, In y (akeys (cm_planned (get_cmdr k s))) ->
+       match k with KStart => seq <= y | KStop => y <= seq end) /\
+    push = [CStartJobs k cur; CNext k] /\
+    get_cmdr k s' = mkCmdr (adel seq (cm_planned (get_cmdr k s))) cur.
+Proof. exact application_pop_is_extremal. Qed.
+
+(* start_request_order + application_order along whole histories, partial: under guard_all = H_no_reentrant_next, H_no_add_commands and H_no_reentrant_delete (a job leaves current_jobs only when it has nothing planned and none of its groups is still being processed; abort only from the top level), from the initial state of any configuration, every request is emitted from the group popped last of a job that is in current_jobs of its sequencer at that moment (jobs become current as application_pop_is_extremal says) *)
+Theorem C03_application_order_partial : forall fuel cf ops s' gh' log elog,
+  forallb (fun t => op_ok2 (fst (fst t))) ops = true ->
+  run_gc fuel (init_st cf) [] ops [] [] = GCOk s' gh' log elog ->
+  seq_shape_inv [] s' gh' /\ Forall entry_ok log /\ Forall emitted_by_current_job elog.
+Proof. exact ordering_partial. Qed.
+
+(* the same for one agenda run from any configuration satisfying both invariants *)
+Theorem C03_guarded_run : forall fuel ag s gh acc eacc s' gh' log elog,
+  seq_shape_inv ag s gh -> current_inv2 ag s -> Forall entry_ok acc -> Forall emitted_by_current_job eacc ->
+  exec_gc fuel ag s gh acc eacc = GCOk s' gh' log elog ->
+  seq_shape_inv [] s' gh' /\ Forall entry_ok log /\ Forall emitted_by_current_job elog.
+Proof. exact guarded_run. Qed.
+
+(* current_inv2 is preserved by every step_call satisfying the guards *)
+Theorem C03_current_inv_preserved : forall c rest s gh push outs s',
+  seq_shape_inv (c :: rest) s gh -> current_inv2 (c :: rest) s ->
+  guard c rest s = true -> guard_current2 c rest s = true ->
+  step_call c s = Ok ((push, outs), s') ->
+  current_inv2 (push ++ rest) s'.
+Proof. exact current_step2. Qed.
+
+(* the job-level hypotheses are satisfiable (witness C is a guarded history) *)
+Theorem C03_seq_shape_hypotheses_hold :
+  exists s gh log, run_g default_fuel (init_st w_cf_c) [] w_ops_c [] = GOk s gh log /\
+    map (fun e => match e with GPop jid _ _ seq g => (jid, seq, g) | GEmit jid cid _ _ _ => (jid, -1, [cid]) end) log
+      = [(3, 1, [1]); (3, -1, [1]); (3, 2, [2]); (3, -1, [2])].
+Proof. exact seq_shape_hypotheses_hold. Qed.
+
+(* the job-level hypotheses do not exclude the no-resource witness *)
+Theorem C03_seq_shape_covers_noresource_witness :
+  exists s gh log, run_g default_fuel (init_st w_cf_a) [] w_ops_a [] = GOk s gh log.
+Proof. exact seq_shape_covers_noresource_witness. Qed.
+
+(* the application-level hypothesis is needed and is what the known finding violates: the no-resource witness leaves guard_all *)
+Theorem C03_noresource_witness_leaves_hypotheses :
+  run_gc default_fuel (init_st w_cf_a) [] w_ops_a [] [] = GCGuard.
+Proof. exact noresource_witness_leaves_hypotheses. Qed.
+
+(* all hypotheses are satisfiable (witness C: timeout of sequence 1, then sequence 2) *)
+Theorem C03_ordering_hypotheses_hold :
+  exists s gh log elog, run_gc default_fuel (init_st w_cf_c) [] w_ops_c [] [] = GCOk s gh log elog /\
+    length log = 4%nat /\ length (filter (fun x => match snd x with OStart _ _ _ => true | _ => false end) elog) = 2%nat.
+Proof. exact ordering_hypotheses_hold. Qed.
+
 (* KNOWN FINDING c03-noresource-reentrancy: application_order is false of the faithful model (witness replayed on the real classes by the corpus) *)
 Theorem C03_application_order_refuted :
   exists cf ops,
